@@ -295,5 +295,19 @@ func behCheck(prop, tier string) (*Outcome, error) {
 	out.Coverage["suites"] = suiteNotes
 	out.Coverage["traces_validated_against_impl"] = evals
 	out.Coverage["known_finding_cases"] = knownN
+	if prop == "C12" {
+		// history exploration: report it as such
+		out.Level = "model_checking"
+		var st, tr int64
+		for _, sn := range info.suites {
+			if r, err := suiteResult(sn, tier, known); err == nil && r.Counters[prop] != nil {
+				st += r.Counters[prop].States
+				tr += r.Counters[prop].Trans
+			}
+		}
+		out.Coverage["states"] = st
+		out.Coverage["transitions"] = tr
+		out.Coverage["traces_validated_against_impl"] = tr
+	}
 	return out, nil
 }
